@@ -8,7 +8,8 @@
              the codeword symbols of the entries that are left, and no unknown column is ever
              removed from a row.
      Part 2  the precondition JF of the ML finish that follows from it; it generalises MLPre
-             (MLSimplify.v) and is enough for the whole of MLFinish.v (ml_finish_JF).
+             (MLSimplify.v) and is enough for the whole of MLFinish.v (ml_finish_JF,
+             ml_finish_from_complete).
      Part 3  good_MLPre: not-complete reachable states satisfy MLPre (the bridge to MLFinish.v as it
              stands).
      Part 4  Det s <-> DetR hist (peeling closure and kernel vectors) and the session theorems
@@ -76,7 +77,7 @@ Lemma gs_split (p : nat -> bool) l : gs cw l = sxor (gs cw (filter p l)) (gs cw 
 Proof. exact (xs_filter_split Sy sxor s0 sxor_assoc sxor_comm sxor_0_l cw p l). Qed.
 
 Lemma upd_nth {A} (l : list A) i j x d : nth j (upd l i x) d = if (j =? i) && (i <? length l) then x else nth j l d.
-Proof. exact (nth_upd_same_or H0 R0 N0 H0_len R_le_N A l i j x d). Qed.
+Proof. exact (nth_upd_same_or H0 R0 N0 H0_len R_le_N l i j x d). Qed.
 
 (* ============================================================================================ *)
 (* Part 1.  The invariant of the streaming decoder                                               *)
@@ -190,12 +191,12 @@ Proof.
       apply grp1.
     + rewrite !nth_upd_neq by auto. exact (J7 i Hi).
   - intros i x Hi Hx Hk. cbn [rws].
-    change (known (srS s c v row t) x) with (known s x) in Hk.
-    pose proof (K i x Hi Hx Hk) as Hin'.
+    assert (Hk' : known s x = false) by exact Hk. clear Hk.
+    pose proof (K i x Hi Hx Hk') as Hin'.
     destruct (Nat.eq_dec i row) as [->|Hne].
     + rewrite nth_upd_eq by lia. unfold ents', ents. apply filter_In. split.
       * apply filter_In. split; [exact Hin'|]. apply negb_true_iff. apply Nat.eqb_neq. intros ->. congruence.
-      * now rewrite Hk.
+      * now rewrite Hk'.
     + rewrite nth_upd_neq by auto. exact Hin'.
 Qed.
 
@@ -235,8 +236,11 @@ Proof.
   - inversion ND as [|? ? Hnotin ND']; subst.
     destruct (Hrows a (or_introl eq_refl)) as (Ha & Hina).
     destruct (step2_row_J s c (cw c) a J K Hkc eq_refl Ha Hina) as (J1 & K1 & T1 & S1).
-    cbn [fold_left]. unfold f2 at 2.
-    destruct (step2_row sxor s0 s c (cw c) a) as [s1 rdy]. cbn [fst] in *.
+    cbn [fold_left].
+    assert (E : f2 Sy sxor s0 c (cw c) (s, L) a =
+                (fst (step2_row sxor s0 s c (cw c) a), if snd (step2_row sxor s0 s c (cw c) a) then L ++ [a] else L)).
+    { unfold f2. destruct (step2_row sxor s0 s c (cw c) a); reflexivity. }
+    rewrite E. set (s1 := fst (step2_row sxor s0 s c (cw c) a)) in *.
     apply IH; auto.
     + now rewrite (known_tab_eq Sy s s1 T1).
     + intros i Hi. destruct (Hrows i (or_intror Hi)) as (A & B). split; [exact A|].
@@ -275,8 +279,8 @@ Proof.
     destruct (Nat.eq_dec i row) as [->|Hne].
     + rewrite !nth_upd_eq by lia. split; [constructor|]. split; [intros x []|]. now left.
     + rewrite !nth_upd_neq by auto. exact (J7 i Hi).
-  - intros i x Hi Hx Hk Hne. change (known (consume s row) x) with (known s x) in Hk.
-    pose proof (K i x Hi Hx Hk) as Hin'. cbn [consume rws].
+  - intros i x Hi Hx Hk Hne. assert (Hk' : known s x = false) by exact Hk. clear Hk.
+    pose proof (K i x Hi Hx Hk') as Hin'. cbn [consume rws].
     destruct (Nat.eq_dec i row) as [->|Hne'].
     + rewrite Hr in Hin'. destruct Hin' as [->|[]]. now elim Hne.
     + rewrite nth_upd_neq by auto. exact Hin'.
@@ -383,4 +387,415 @@ Corollary run_Sub fuel (hist : list (nat * Sy)) (s : st) :
   (forall ev, In ev hist -> fst ev < N0 /\ snd ev = cw (fst ev)) -> run fuel hist = Some s -> Sub s.
 Proof. intros Hh Hrun. apply RJ_Sub. apply (run_J fuel hist s Hh Hrun). Qed.
 
+(* ---------- the structural part holds for ANY history (no hypothesis on the submitted values) ---------- *)
+Lemma Sub_rws_eq (s s' : st) : rws s' = rws s -> Sub s -> Sub s'.
+Proof. intros E. unfold Sub. now rewrite E. Qed.
+
+Lemma Sub_upd (s s' : st) row rw : rws s' = upd (rws s) row rw -> NoDup rw -> incl rw (nth row (rws s) []) -> Sub s -> Sub s'.
+Proof.
+  intros E ND Incl (L & Rows). unfold Sub. rewrite E, upd_length. split; [exact L|].
+  intros i Hi. rewrite upd_nth. destruct ((i =? row) && (row <? length (rws s))) eqn:Eb; [|exact (Rows i Hi)].
+  apply andb_true_iff in Eb. destruct Eb as (Eb & _). apply Nat.eqb_eq in Eb. subst i.
+  split; [exact ND|]. intros x Hx. apply (proj2 (Rows row Hi)). now apply Incl.
+Qed.
+
+Lemma step2_row_Sub (s : st) c v row : Sub s -> Sub (fst (step2_row sxor s0 s c v row)).
+Proof.
+  intros HS. rewrite step2_row_cases.
+  assert (X : forall t, Sub (srS s c v row t)).
+  { intros t. unfold srS. eapply (Sub_upd s); [cbn [rws]; reflexivity| | |exact HS].
+    - destruct (Nat.lt_ge_cases row R0) as [Hlt|Hge].
+      + apply NoDup_filter, NoDup_filter. exact (proj1 (proj2 HS row Hlt)).
+      + rewrite nth_overflow by (rewrite (proj1 HS); exact Hge). constructor.
+    - intros x Hx. apply filter_In in Hx. destruct Hx as (Hx & _). apply filter_In in Hx. apply Hx. }
+  destruct (nth row (ct s) None); [apply X|].
+  destruct (getn (unk s) row - 1 =? 1); [apply X|]. apply (Sub_rws_eq s); [reflexivity|exact HS].
+Qed.
+
+Lemma step2_fold_Sub c v : forall rowsl (s : st) L, Sub s -> Sub (fst (fold_left (f2 Sy sxor s0 c v) rowsl (s, L))).
+Proof.
+  induction rowsl as [|a rest IH]; intros s1 L HS; [exact HS|].
+  cbn [fold_left].
+  assert (E : f2 Sy sxor s0 c v (s1, L) a =
+              (fst (step2_row sxor s0 s1 c v a), if snd (step2_row sxor s0 s1 c v a) then L ++ [a] else L)).
+  { unfold f2. destruct (step2_row sxor s0 s1 c v a); reflexivity. }
+  rewrite E. apply IH. now apply step2_row_Sub.
+Qed.
+
+Lemma step2_Sub (s : st) c v : Sub s -> Sub (fst (step2 sxor s0 s c v)).
+Proof. intros HS. unfold step2. fold (f2 Sy sxor s0 c v). now apply step2_fold_Sub. Qed.
+
+Definition DecS (dec : st -> nat -> Sy -> option st) : Prop := forall s e v s', Sub s -> dec s e v = Some s' -> Sub s'.
+
+Lemma step3_Sub dec : DecS dec -> forall L (s s' : st), Sub s -> step3 dec L s = Some s' -> Sub s'.
+Proof.
+  intros HD. induction L as [|row L IH]; intros s s' HS H.
+  - cbn [step3] in H. injection H as <-. exact HS.
+  - rewrite step3_cons in H.
+    assert (HS1 : Sub (snd (is_complete s))) by (apply (Sub_rws_eq s); [reflexivity|exact HS]).
+    destruct (is_complete s) as [b s1]. cbn [snd] in HS1.
+    destruct b; [injection H as <-; exact HS1|].
+    destruct (getn (enc s1) row =? 1); [|exact (IH s1 s' HS1 H)].
+    destruct (nth row (rws s1) []) as [|cc [|cc2 rest]]; try discriminate H.
+    destruct (nth row (ct s1) None) as [t|]; [|discriminate H].
+    destruct (dec (consume s1 row) cc t) as [s2|] eqn:Ed; [|discriminate H].
+    assert (HSc : Sub (consume s1 row)).
+    { eapply (Sub_upd s1); [unfold consume; cbn [rws]; reflexivity|constructor|intros x []|exact HS1]. }
+    exact (IH s2 s' (HD _ _ _ _ HSc Ed) H).
+Qed.
+
+Lemma decode_Sub : forall fuel, DecS (decode sxor s0 fuel).
+Proof.
+  induction fuel as [|f IH]; intros s e v s' HS Hdec; [discriminate Hdec|].
+  rewrite decode_unfold in Hdec.
+  destruct (known s e); [injection Hdec as <-; exact HS|].
+  cbv zeta in Hdec. set (s1 := set_tab s e v) in *.
+  assert (HS1 : Sub s1) by (apply (Sub_rws_eq s); [reflexivity|exact HS]).
+  assert (HSx : Sub (snd (if r s1 <=? e then is_complete s1 else (false, s1)))).
+  { destruct (r s1 <=? e); [|exact HS1]. apply (Sub_rws_eq s1); [reflexivity|exact HS1]. }
+  destruct (if r s1 <=? e then is_complete s1 else (false, s1)) as [b sx]. cbn [fst snd] in *.
+  destruct b; [injection Hdec as <-; exact HSx|].
+  pose proof (step2_Sub sx e v HSx) as HS2.
+  destruct (step2 sxor s0 sx e v) as [s2 L]. cbn [fst] in *.
+  exact (step3_Sub (decode sxor s0 f) IH (rev L) s2 s' HS2 Hdec).
+Qed.
+
+Theorem run_Sub_any fuel (hist : list (nat * Sy)) (s : st) : run fuel hist = Some s -> Sub s.
+Proof.
+  unfold ITProofs.run.
+  assert (H0S : Sub (init Sy R0 N0 H0)).
+  { split; [exact H0_len|]. intros i Hi. cbn [init rws]. split; [now apply H0_nodup|apply incl_refl]. }
+  revert H0S. generalize (init Sy R0 N0 H0) as sA. induction hist as [|ev h IH]; intros sA HS Hf.
+  - injection Hf as <-. exact HS.
+  - cbn [fold_left] in Hf. destruct (decode sxor s0 fuel sA (fst ev) (snd ev)) as [sB|] eqn:Ed.
+    + exact (IH sB (decode_Sub fuel _ _ _ _ HS Ed) Hf).
+    + rewrite (StableTables.fold_none Sy sxor s0 fuel h) in Hf. discriminate Hf.
+Qed.
+
+(* ============================================================================================ *)
+(* Part 2.  The precondition of the ML finish                                                    *)
+(* ============================================================================================ *)
+(* JF cwx s: the rows are duplicate-free sub-lists of the original rows that still contain every
+   unknown column, and the partial sum of a non-empty row is the sum of the symbols (of the
+   codeword cwx) of its entries.  The counters are irrelevant (prepar resets them). *)
+Definition JF (cwx : nat -> Sy) (s : st) : Prop :=
+  WF s /\ (forall c v, nth c (tab s) None = Some v -> v = cwx c) /\
+  (forall i, i < R0 -> NoDup (nth i (rws s) []) /\ incl (nth i (rws s) []) (nth i H0 [])) /\
+  (forall i, i < R0 -> nth i (rws s) [] <> [] -> val (nth i (ct s) None) = gs cwx (nth i (rws s) [])) /\
+  (forall i c, i < R0 -> In c (nth i H0 []) -> known s c = false -> In c (nth i (rws s) [])).
+
+Lemma RJ_JF (s : st) : WF s -> RJ s -> Keep s -> JF cw s.
+Proof.
+  intros W J K. split; [exact W|]. split; [exact (rj_val s J)|]. split; [|split; [|exact K]].
+  - intros i Hi. destruct (rj_row s J i Hi) as (A & B & _). split; [exact A|exact B].
+  - intros i Hi Hne. destruct (rj_row s J i Hi) as (_ & _ & M).
+    destruct (nth i (ct s) None) as [t|].
+    + destruct M as (_ & M). exact (M Hne).
+    + destruct M as [M|(M & _)]; [now elim Hne|]. rewrite M. cbn [MLSimplify.val]. symmetry. now apply parity.
+Qed.
+
+(* MLPre is the special case "untouched or empty" *)
+Lemma MLPre_JF (cwx : nat -> Sy) (s : st) : (forall i, i < R0 -> gs cwx (nth i H0 []) = s0) -> MLPre cwx s -> JF cwx s.
+Proof.
+  intros parx (W & T & Rows). split; [exact W|]. split; [exact T|]. split; [|split].
+  - intros i Hi. destruct (Rows i Hi) as [(A & _)|(A & _)]; rewrite A.
+    + split; [now apply H0_nodup|apply incl_refl].
+    + split; [constructor|intros x []].
+  - intros i Hi Hne. destruct (Rows i Hi) as [(A & B)|(A & _)]; [|now elim Hne].
+    rewrite A, B. cbn [MLSimplify.val]. symmetry. now apply parx.
+  - intros i c Hi Hin Hk. destruct (Rows i Hi) as [(A & _)|(_ & B)]; [now rewrite A|].
+    rewrite (B c Hin) in Hk. discriminate Hk.
+Qed.
+
+Lemma JF_prepar (cwx : nat -> Sy) (s : st) : JF cwx s -> MLSimplify.MLInv Sy sxor s0 H0 R0 N0 cwx (prepar s).
+Proof.
+  intros (W & T & S & V & K).
+  constructor.
+  - assert (Hl : length (map (@length nat) (rws s)) = R0) by (rewrite map_length; apply W).
+    apply (WF_pres Sy R0 N0 s); auto; try reflexivity.
+    + unfold prepar; cbn [unk]. rewrite Hl. symmetry. apply W.
+    + unfold prepar; cbn [enc]. rewrite Hl. symmetry. apply W.
+    + intros c Hc. exact Hc.
+  - exact S.
+  - intros i Hi. unfold prepar, getn; cbn [unk rws]. apply nth_map_len.
+  - exact V.
+  - exact T.
+  - exact K.
+Qed.
+
+(* a kernel vector that vanishes on the known columns gives a second codeword compatible with the state *)
+Lemma JF_cw2 (s : st) (z : nat -> bool) (a : Sy) : JF cw s -> hker z ->
+  (forall c, c < N0 -> known s c = true -> z c = false) -> JF (cw2 Sy sxor cw z a) s.
+Proof.
+  intros (W & T & S & V & K) Hz Hv. split; [exact W|]. split; [|split; [exact S|split; [|exact K]]].
+  - intros c v Hc. rewrite (T c v Hc). unfold cw2.
+    destruct (Nat.lt_ge_cases c N0) as [Hlt|Hge].
+    + rewrite (Hv c Hlt); [reflexivity|]. unfold known. now rewrite Hc.
+    + rewrite nth_overflow in Hc by (rewrite (wf_tab Sy R0 N0 s W); exact Hge). discriminate Hc.
+  - intros i Hi Hne. rewrite (V i Hi Hne).
+    rewrite (gs_cw2 Sy sxor s0 sxor_assoc sxor_comm sxor_0_l sxor_nilp cw z a).
+    destruct (S i Hi) as (ND & Incl).
+    assert (E : fold_right xorb false (map z (nth i (rws s) [])) = false).
+    { change (xs bool xorb false z (nth i (rws s) []) = false).
+      rewrite <- (gs_mem bool xorb false DenseSolveComplete.bx_assoc DenseSolveComplete.bx_comm DenseSolveComplete.bx_0_l
+                    z (nth i H0 []) (nth i (rws s) []) (H0_nodup i Hi) ND Incl).
+      transitivity (xs bool xorb false z (nth i H0 [])); [|exact (Hz i Hi)].
+      apply gs_ext. intros c Hc.
+      destruct (mem c (nth i (rws s) [])) eqn:Em; [reflexivity|].
+      apply mem_false in Em. symmetry. apply Hv; [exact (H0_range i c Hi Hc)|].
+      destruct (known s c) eqn:Hk; [reflexivity|]. exfalso. apply Em. exact (K i c Hi Hc Hk). }
+    rewrite E. symmetry. apply sx0r.
+Qed.
+
+(* the simplification phase (MLFinish.reduce_gen / reduce_main with JF in place of MLPre) *)
+Lemma reduce_gen_JF (cwx : nat -> Sy) fuel perm (s : st) :
+  (forall i, i < R0 -> gs cwx (nth i H0 []) = s0) ->
+  JF cwx s -> N0 < fuel -> (forall c, c < R0 -> In c perm) -> (forall c, In c perm -> c < R0) ->
+  exists s1, red Sy sxor fuel perm s = Some s1 /\ MLSimplify.MLInv Sy sxor s0 H0 R0 N0 cwx s1 /\ Kmono s s1
+    /\ (forall c, known s c = true -> nth c (tab s1) None = nth c (tab s) None)
+    /\ (iscomp s1 \/ RC Sy H0 R0 s1).
+Proof.
+  intros parx P Hf Hp1 Hp2.
+  assert (W : WF s) by apply P.
+  pose proof (JF_prepar cwx s P) as I0.
+  unfold red. change (r (prepar s)) with (r s). rewrite (wf_r Sy R0 N0 s W), (wf_n Sy R0 N0 s W).
+  rewrite map_add_seq. rewrite <- fold_left_app.
+  set (cs := seq R0 (N0 - R0) ++ perm).
+  assert (Hcs1 : forall c, In c cs -> c < N0).
+  { intros c Hc. apply in_app_or in Hc. destruct Hc as [Hc|Hc]; [apply in_seq in Hc; lia|apply Hp2 in Hc; lia]. }
+  assert (Hcs2 : forall c, c < N0 -> In c cs).
+  { intros c Hc. apply in_or_app. destruct (Nat.lt_ge_cases c R0) as [Hlt|Hge]; [right; now apply Hp1|left; apply in_seq; lia]. }
+  destruct (inject_all_spec Sy sxor s0 sxor_assoc sxor_comm sxor_0_l sxor_nilp H0 R0 N0 H0_len H0_nodup H0_range H0_deg R_le_N
+              cwx parx cs fuel (prepar s) I0 Hcs1 Hf) as (s1 & Hs1 & I1 & M & T & _).
+  exists s1. split; [exact Hs1|]. split; [exact I1|]. split; [exact M|]. split; [exact T|].
+  destruct (reduced Sy sxor s0 sxor_assoc sxor_comm sxor_0_l sxor_nilp H0 R0 N0 H0_len H0_nodup H0_range H0_deg R_le_N
+              cwx parx cs fuel (prepar s) s1 I0 Hcs1 Hcs2 Hf Hs1) as (_ & [C|(_ & X)]); [now left|right; exact X].
+Qed.
+
+Lemma reduce_main_JF fuel perm (s : st) :
+  JF cw s -> N0 < fuel -> (forall c, c < R0 -> In c perm) -> (forall c, In c perm -> c < R0) ->
+  exists s1, red Sy sxor fuel perm s = Some s1 /\ MLInv cw s1 /\ Kmono s s1
+    /\ (forall c, known s c = true -> nth c (tab s1) None = nth c (tab s) None)
+    /\ (iscomp s1 \/ RC Sy H0 R0 s1)
+    /\ (forall z, hker z -> (forall c, c < N0 -> known s c = true -> z c = false) ->
+        forall c, known s1 c = true -> z c = false).
+Proof.
+  intros P Hf Hp1 Hp2.
+  destruct (reduce_gen_JF cw fuel perm s parity P Hf Hp1 Hp2) as (s1 & Hs1 & I1 & M & T & X).
+  exists s1. split; [exact Hs1|]. split; [exact I1|]. split; [exact M|]. split; [exact T|]. split; [exact X|].
+  intros z Hz Hv c Hk.
+  destruct Sy_nontrivial as (a & Ha).
+  pose proof (JF_cw2 s z a P Hz Hv) as P2.
+  destruct (reduce_gen_JF (cw2 Sy sxor cw z a) fuel perm s
+              (parity2 Sy sxor s0 sxor_assoc sxor_comm sxor_0_l sxor_nilp H0 R0 cw parity z a Hz) P2 Hf Hp1 Hp2)
+    as (s1' & Hs1' & I1' & _).
+  rewrite Hs1 in Hs1'. injection Hs1' as <-.
+  unfold known in Hk. destruct (nth c (tab s1) None) as [v|] eqn:Ev; [|discriminate Hk].
+  pose proof (ml_tab Sy sxor s0 H0 R0 N0 cw s1 I1 c v Ev) as E1.
+  pose proof (ml_tab Sy sxor s0 H0 R0 N0 (cw2 Sy sxor cw z a) s1 I1' c v Ev) as E2.
+  unfold cw2 in E2. destruct (z c); [|reflexivity]. exfalso. apply Ha.
+  apply (XorGroup.sxor_cancel Sy sxor s0 sxor_assoc sxor_0_l sxor_nilp (cw c)). rewrite sx0r. congruence.
+Qed.
+
+(* the ML finish from any state that satisfies JF: total, sound, complete iff determined *)
+Theorem ml_finish_JF fuel perm (s : st) :
+  JF cw s -> N0 < fuel -> (forall c, c < R0 -> In c perm) -> (forall c, In c perm -> c < R0) ->
+  exists o, ml_finish sxor s0 fuel perm s = Some o /\
+    (forall c v, nth c (tab (o_st o)) None = Some v -> v = cw c) /\
+    Kmono s (o_st o) /\
+    (o_ok o = true <-> iscomp (o_st o)) /\
+    (iscomp (o_st o) <-> Det s).
+Proof.
+  intros P Hf Hp1 Hp2.
+  destruct (reduce_main_JF fuel perm s P Hf Hp1 Hp2) as (s1 & Hs1 & I1 & KM & T & X & KD).
+  destruct (tail_spec Sy sxor s0 sxor_assoc sxor_comm sxor_0_l sxor_nilp H0 R0 N0 H0_len H0_nodup H0_range H0_deg R_le_N
+              cw H0_cols H0_stair s1 I1 s KM KD X) as (o & Ho & (P1 & P2 & P3 & P4 & P5)).
+  exists o. split.
+  - rewrite ml_finish_eq, Hs1.
+    assert (W : WF s) by apply P.
+    rewrite (wf_r Sy R0 N0 s W), (wf_n Sy R0 N0 s W). exact Ho.
+  - split; [exact P1|]. split; [intros c Hc; apply P2, KM, Hc|]. split; [exact P4|exact P5].
+Qed.
+
+(* the finish from a state in which every source symbol is already available (the streaming decoder
+   stops early on completion and leaves rows half-processed: MLPre does not hold there, JF does) *)
+Corollary ml_finish_from_complete fuel perm (s : st) :
+  JF cw s -> iscomp s -> N0 < fuel -> (forall c, c < R0 -> In c perm) -> (forall c, In c perm -> c < R0) ->
+  exists o, ml_finish sxor s0 fuel perm s = Some o /\ o_ok o = true /\ iscomp (o_st o)
+    /\ (forall c v, nth c (tab (o_st o)) None = Some v -> v = cw c)
+    /\ (forall e x, nth e (tab s) None = Some x -> nth e (tab (o_st o)) None = Some x).
+Proof.
+  intros P C Hf Hp1 Hp2.
+  destruct (ml_finish_JF fuel perm s P Hf Hp1 Hp2) as (o & Ho & V & KM & OK & _).
+  exists o. split; [exact Ho|].
+  assert (C' : iscomp (o_st o)) by (intros c Hc; apply KM, C, Hc).
+  split; [apply OK; exact C'|]. split; [exact C'|]. split; [exact V|].
+  exact (StableTables.ml_finish_tab_stable Sy sxor s0 fuel perm s o Ho).
+Qed.
+
+(* ============================================================================================ *)
+(* Part 3.  Not-complete reachable states satisfy MLPre                                          *)
+(* ============================================================================================ *)
+Lemma Urow_nil_known (s : st) i : Urow H0 (known s) i = [] -> forall c, In c (nth i H0 []) -> known s c = true.
+Proof.
+  intros E c Hc. destruct (known s c) eqn:Hk; [reflexivity|]. exfalso.
+  assert (Hin : In c (Urow H0 (known s) i)) by (unfold Urow; apply filter_In; split; [exact Hc|now rewrite Hk]).
+  rewrite E in Hin. destruct Hin.
+Qed.
+
+Lemma good_MLPre (s : st) : Good s -> ~ iscomp s -> (forall c v, nth c (tab s) None = Some v -> v = cw c) -> MLPre cw s.
+Proof.
+  intros (W & HG) Hnc T. destruct HG as [C|(HI & HN)]; [now elim Hnc|].
+  split; [exact W|]. split; [exact T|].
+  intros i Hi. specialize (HI i Hi). specialize (HN i Hi). unfold rowinv in HI. unfold ready1 in HN.
+  destruct (nth i (ct s) None) as [t|] eqn:Ect.
+  - right. destruct HI as (A & B & _ & _).
+    assert (E : Urow H0 (known s) i = []).
+    { destruct (Urow H0 (known s) i) as [|x [|y l]] eqn:EU; [reflexivity| |simpl in B; lia].
+      exfalso. apply HN. split; [discriminate|]. rewrite A. reflexivity. }
+    split; [rewrite A; exact E|exact (Urow_nil_known s i E)].
+  - destruct HI as [(A & _)|(A & _ & C)].
+    + left. split; [exact A|reflexivity].
+    + right. split; [exact A|]. apply Urow_nil_known.
+      destruct (Urow H0 (known s) i) as [|x l]; [reflexivity|].
+      specialize (C x (or_introl eq_refl)). discriminate C.
+Qed.
+
+(* ============================================================================================ *)
+(* Part 4.  The session theorems                                                                 *)
+(* ============================================================================================ *)
+Definition Rcv (hist : list (nat * Sy)) : nat -> Prop := fun c => In c (map fst hist).
+(* the sources are uniquely determined by the RECEIVED symbols and the parity equations *)
+Definition DetR (hist : list (nat * Sy)) : Prop :=
+  forall z, hker z -> (forall c, Rcv hist c -> z c = false) -> forall c, R0 <= c < N0 -> z c = false.
+
+(* a kernel vector that vanishes on a set vanishes on its peeling closure *)
+Lemma ker_peel (z : nat -> bool) (Rc : nat -> Prop) : hker z -> (forall c, Rc c -> z c = false) ->
+  forall c, peel H0 R0 Rc c -> z c = false.
+Proof.
+  intros Hz Hv c Hp. induction Hp as [c Hc|i c Hi Hin Hall IH]; [now apply Hv|].
+  pose proof (Hz i Hi) as E. change (xs bool xorb false z (nth i H0 []) = false) in E.
+  rewrite (gs_rm bool xorb false DenseSolveComplete.bx_assoc DenseSolveComplete.bx_comm z (nth i H0 []) c
+             (H0_nodup i Hi) Hin) in E.
+  assert (E2 : xs bool xorb false z (rm c (nth i H0 [])) = false).
+  { apply DenseSolveComplete.fold_xorb_zero. intros x Hx. apply rm_In in Hx. destruct Hx as (Hx & Hne). now apply IH. }
+  rewrite E2 in E. destruct (z c); [discriminate E|reflexivity].
+Qed.
+
+Lemma fold_recv fuel : forall (h : list (nat * Sy)) (sA s1 : st), (forall ev, In ev h -> fst ev < N0) ->
+  fold_left (dstep fuel) h (Some sA) = Some s1 -> Good sA ->
+  Good s1 /\ Kmono sA s1 /\ forall ev, In ev h -> known s1 (fst ev) = true.
+Proof.
+  induction h as [|ev h IH]; intros sA s1 Hh Hf HG.
+  - injection Hf as <-. split; [exact HG|]. split; [intros c Hc; exact Hc|intros ev []].
+  - cbn [fold_left] in Hf.
+    destruct (decode sxor s0 fuel sA (fst ev) (snd ev)) as [sB|] eqn:Ed.
+    + assert (HS : Sound Sy H0 R0 (fun _ => True) sA) by (intros c _; now apply peel_recv).
+      destruct (decode_good Sy sxor s0 H0 R0 N0 H0_len H0_nodup H0_range H0_deg R_le_N fuel sA sB (fst ev) (snd ev)
+                  (fun _ => True) HG HS I (Hh ev (or_introl eq_refl)) Ed) as (GB & _ & MB & KB).
+      destruct (IH sB s1 (fun e He => Hh e (or_intror He)) Hf GB) as (G1 & M1 & K1).
+      split; [exact G1|]. split; [intros c Hc; apply M1, MB, Hc|].
+      intros e [<-|He]; [apply M1, KB|now apply K1].
+    + rewrite (StableTables.fold_none Sy sxor s0 fuel h) in Hf. discriminate Hf.
+Qed.
+
+(* what is known about a state reached by the streaming decoder on codeword symbols *)
+Lemma run_facts fuel (hist : list (nat * Sy)) (s : st) :
+  (forall ev, In ev hist -> fst ev < N0 /\ snd ev = cw (fst ev)) -> run fuel hist = Some s ->
+  JF cw s /\ (forall c, Rcv hist c -> c < N0 /\ known s c = true) /\ (forall c, known s c = true -> peel H0 R0 (Rcv hist) c).
+Proof.
+  intros Hh Hrun.
+  assert (Hr : forall ev, In ev hist -> fst ev < N0) by (intros ev Hev; apply (Hh ev Hev)).
+  destruct (init_good Sy sxor s0 H0 R0 N0 H0_len H0_deg R_le_N) as (G0 & _).
+  destruct (fold_recv fuel hist (init Sy R0 N0 H0) s Hr Hrun G0) as ((W & _) & _ & KR).
+  destruct (run_J fuel hist s Hh Hrun) as (J & K).
+  destruct (it_is_peeling Sy sxor s0 H0 R0 N0 H0_len H0_nodup H0_range H0_deg R_le_N fuel hist s Hr Hrun) as (A & _).
+  split; [exact (RJ_JF s W J K)|]. split; [|exact A].
+  intros c Hc. unfold Rcv in Hc. apply in_map_iff in Hc. destruct Hc as (ev & <- & Hev).
+  split; [exact (Hr ev Hev)|exact (KR ev Hev)].
+Qed.
+
+Lemma Det_DetR fuel (hist : list (nat * Sy)) (s : st) :
+  (forall ev, In ev hist -> fst ev < N0 /\ snd ev = cw (fst ev)) -> run fuel hist = Some s ->
+  (Det s <-> DetR hist).
+Proof.
+  intros Hh Hrun. destruct (run_facts fuel hist s Hh Hrun) as (_ & KR & A).
+  split; intros D z Hz Hv c Hc; apply (D z Hz); try exact Hc.
+  - intros c' _ Hk. apply (ker_peel z (Rcv hist) Hz Hv). now apply A.
+  - intros c' Hr. destruct (KR c' Hr) as (Hlt & Hk). now apply Hv.
+Qed.
+
+Lemma DetR_ext (h1 h2 : list (nat * Sy)) : (forall c, In c (map fst h1) <-> In c (map fst h2)) -> (DetR h1 <-> DetR h2).
+Proof.
+  intros E. split; intros D z Hz Hv c Hc; apply (D z Hz); try exact Hc; intros c' Hr; apply Hv; unfold Rcv in *; now apply E.
+Qed.
+
+Theorem ldpc_session_finish : forall hist s fuel perm o,
+  (forall ev, In ev hist -> fst ev < N0 /\ snd ev = cw (fst ev)) -> run (S N0) hist = Some s ->
+  N0 < fuel -> (forall c, c < R0 -> In c perm) -> (forall c, In c perm -> c < R0) ->
+  ml_finish sxor s0 fuel perm s = Some o ->
+  (forall c v, nth c (tab (o_st o)) None = Some v -> v = cw c)                        (* never a wrong symbol *)
+  /\ (forall c x, nth c (tab s) None = Some x -> nth c (tab (o_st o)) None = Some x)   (* held symbols are kept *)
+  /\ (o_ok o = true <-> iscomp (o_st o))                                              (* status tells the truth *)
+  /\ (iscomp (o_st o) <-> DetR hist).                                                 (* succeeds iff recoverable *)
+Proof.
+  intros hist s fuel perm o Hh Hrun Hf Hp1 Hp2 Ho.
+  destruct (run_facts (S N0) hist s Hh Hrun) as (P & _ & _).
+  destruct (ml_finish_JF fuel perm s P Hf Hp1 Hp2) as (o' & Ho' & V & _ & OK & D).
+  rewrite Ho in Ho'. injection Ho' as <-.
+  split; [exact V|]. split; [exact (StableTables.ml_finish_tab_stable Sy sxor s0 fuel perm s o Ho)|].
+  split; [exact OK|]. rewrite D. exact (Det_DetR (S N0) hist s Hh Hrun).
+Qed.
+
+Theorem ldpc_session_finish_total : forall hist s fuel perm,
+  (forall ev, In ev hist -> fst ev < N0 /\ snd ev = cw (fst ev)) -> run (S N0) hist = Some s ->
+  N0 < fuel -> (forall c, c < R0 -> In c perm) -> (forall c, In c perm -> c < R0) ->
+  exists o, ml_finish sxor s0 fuel perm s = Some o.
+Proof.
+  intros hist s fuel perm Hh Hrun Hf Hp1 Hp2.
+  destruct (run_facts (S N0) hist s Hh Hrun) as (P & _ & _).
+  destruct (ml_finish_JF fuel perm s P Hf Hp1 Hp2) as (o & Ho & _). exists o. exact Ho.
+Qed.
+
+(* the whole session (streaming decoder, then ML finish) always produces an outcome *)
+Corollary ldpc_session_total : forall hist fuel perm,
+  (forall ev, In ev hist -> fst ev < N0 /\ snd ev = cw (fst ev)) ->
+  N0 < fuel -> (forall c, c < R0 -> In c perm) -> (forall c, In c perm -> c < R0) ->
+  exists s o, run (S N0) hist = Some s /\ ml_finish sxor s0 fuel perm s = Some o.
+Proof.
+  intros hist fuel perm Hh Hf Hp1 Hp2.
+  destruct (run_total Sy sxor s0 H0 R0 N0 H0_len H0_nodup H0_range H0_deg R_le_N (S N0) hist (Nat.lt_succ_diag_r N0)
+              (fun ev Hev => proj1 (Hh ev Hev))) as (s & Hs).
+  destruct (ldpc_session_finish_total hist s fuel perm Hh Hs Hf Hp1 Hp2) as (o & Ho).
+  exists s, o. split; [exact Hs|exact Ho].
+Qed.
+
+Corollary ldpc_session_finish_order_independent : forall h1 h2 s1 s2 fuel1 fuel2 perm1 perm2 o1 o2,
+  (forall ev, In ev h1 -> fst ev < N0 /\ snd ev = cw (fst ev)) ->
+  (forall ev, In ev h2 -> fst ev < N0 /\ snd ev = cw (fst ev)) ->
+  (forall c, In c (map fst h1) <-> In c (map fst h2)) ->
+  run (S N0) h1 = Some s1 -> run (S N0) h2 = Some s2 ->
+  N0 < fuel1 -> N0 < fuel2 ->
+  (forall c, c < R0 -> In c perm1) -> (forall c, In c perm1 -> c < R0) ->
+  (forall c, c < R0 -> In c perm2) -> (forall c, In c perm2 -> c < R0) ->
+  ml_finish sxor s0 fuel1 perm1 s1 = Some o1 -> ml_finish sxor s0 fuel2 perm2 s2 = Some o2 ->
+  o_ok o1 = o_ok o2.
+Proof.
+  intros h1 h2 s1 s2 fuel1 fuel2 perm1 perm2 o1 o2 Hh1 Hh2 E R1 R2 F1 F2 A1 A2 B1 B2 O1 O2.
+  destruct (ldpc_session_finish h1 s1 fuel1 perm1 o1 Hh1 R1 F1 A1 A2 O1) as (_ & _ & X1 & Y1).
+  destruct (ldpc_session_finish h2 s2 fuel2 perm2 o2 Hh2 R2 F2 B1 B2 O2) as (_ & _ & X2 & Y2).
+  pose proof (DetR_ext h1 h2 E) as D.
+  destruct (o_ok o1) eqn:E1; destruct (o_ok o2) eqn:E2; try reflexivity.
+  - assert (T : false = true) by (apply X2, Y2, D, Y1, X1; reflexivity). discriminate T.
+  - assert (T : false = true) by (apply X1, Y1, D, Y2, X2; reflexivity). discriminate T.
+Qed.
+
 End Session.
+
+Print Assumptions run_Sub_any.
+Print Assumptions run_J.
+Print Assumptions ml_finish_JF.
+Print Assumptions good_MLPre.
+Print Assumptions ldpc_session_finish.
+Print Assumptions ldpc_session_finish_total.
+Print Assumptions ldpc_session_finish_order_independent.
